@@ -371,7 +371,14 @@ pub fn cmd_worker(args: &[String]) -> i32 {
     let mut st = WStats::default();
     let out = std::io::stdout();
     let mut seen_sigs: BTreeSet<String> = BTreeSet::new();
+    let mut first_violation_at: Option<u64> = None;
     for i in start..start + count {
+        // after a violation the verdict is settled: look a little further for other signatures, then stop
+        if let Some(f) = first_violation_at {
+            if i > f + 300 || st.steps_total > 50_000_000 {
+                break;
+            }
+        }
         let rs = run_seed(seed, prop, i);
         let case = check::make_case(prop, rs, i, tier);
         {
@@ -387,6 +394,9 @@ pub fn cmd_worker(args: &[String]) -> i32 {
         }
         if let Some(vio) = mine.first() {
             st.violations += 1;
+            if first_violation_at.is_none() {
+                first_violation_at = Some(i);
+            }
             if seen_sigs.insert(vio.sig.clone()) && seen_sigs.len() <= 4 {
                 let (d2, vio2, minimised) = crate::driver::minimise(prop, &d, vio);
                 let path = write_replay(prop, seed, i, &d2, &vio2, minimised);
@@ -506,6 +516,7 @@ pub fn cmd_check(prop: &str, tier: &str) -> i32 {
     let mut vios: Vec<Value> = Vec::new();
     let mut harness_err = false;
     let mut crashes = 0u64;
+    let mut first_vio: Option<Instant> = None;
     let mut results: Vec<(u64, String)> = Vec::new();
     // one reader thread per worker process; the driver waits on a channel with a watchdog
     enum Msg {
@@ -546,6 +557,13 @@ pub fn cmd_check(prop: &str, tier: &str) -> i32 {
                     if let Ok(vj) = serde_json::from_str::<Value>(j) {
                         vios.push(vj);
                     }
+                    if first_vio.is_none() {
+                        first_vio = Some(Instant::now());
+                        if !pending.is_empty() {
+                            eprintln!("note: a violation was found; {} chunks that have not started are not run", pending.len());
+                            pending.clear();
+                        }
+                    }
                 } else if let Some(j) = line.strip_prefix("S ") {
                     results.push((st, j.to_string()));
                 } else if let Some(j) = line.strip_prefix("R ") {
@@ -578,6 +596,16 @@ pub fn cmd_check(prop: &str, tier: &str) -> i32 {
                 }
             }
             Err(_) => {}
+        }
+        // once the verdict is a violation, workers get a grace period to finish their current runs
+        if let Some(t) = first_vio {
+            if t.elapsed().as_secs() > 25 && !running.is_empty() {
+                eprintln!("note: stopping {} workers that are still running 25 s after the first violation", running.len());
+                for (_, (child, _, _, _)) in running.iter() {
+                    let _ = child.lock().map(|mut c| c.kill());
+                }
+                running.clear();
+            }
         }
         // watchdog
         let now = Instant::now();
